@@ -96,6 +96,8 @@ Outcome RunC02(RunCtx& ctx)
 		Zoo z;
 		ZooGenCfg zg;
 		zg.archive = archive;
+		zg.jumboMember = DrawJumbo(s, sim::L_CFG, 6);
+		if (zg.jumboMember >= 0 && archive != A_CSV) ctx.count(std::string("jumbo.") + JumboName(zg.jumboMember));
 		GenZoo(s, sim::L_DOC, z, zg);
 		CallResult sv = SaveZooWith(ops, z, bytes, o, OutCfg{});
 		if (!sv.isStd) return Violation("WRONG_EXCEPTION", "archive=" + an + " dir=save", "non-std exception");
@@ -160,10 +162,12 @@ Outcome RunC02(RunCtx& ctx)
 
 	// ---- every entry ----
 	const uint32_t nStream = 1 + s.draw(sim::L_IO, 2);
-	for (uint32_t j = 0; j <= nStream; ++j)
+	const bool readOnlyEntry = s.chance(sim::L_IO, 1, 2);   // memory entry once more, from a read-only mapping with a guard page behind it
+	for (uint32_t j = 0; j <= nStream + (readOnlyEntry ? 1 : 0); ++j)
 	{
 		InCfg c;
-		if (j > 0) c = DrawStreamCfg(s, sim::L_IO);
+		if (j > nStream) { c.readOnlyMem = true; ctx.count("entry.readonly_view"); }
+		else if (j > 0) c = DrawStreamCfg(s, sim::L_IO);
 		ctx.note("load #" + std::to_string(j) + " via " + c.str());
 		CallResult r;
 		int64_t peak = 0;
@@ -190,7 +194,7 @@ Outcome RunC02(RunCtx& ctx)
 			}
 		}
 		sim::steps_end();
-		const std::string tags = "archive=" + an + " family=" + (zooFamily ? "zoo" : "dyn") + " entry=" + (c.stream ? (c.seekable ? "stream:file" : "stream:pipe") : "mem");
+		const std::string tags = "archive=" + an + " family=" + (zooFamily ? "zoo" : "dyn") + " entry=" + (c.stream ? (c.seekable ? "stream:file" : "stream:pipe") : (c.readOnlyMem ? "mem:readonly-view" : "mem"));
 		ctx.note("  -> " + r.cat + " " + r.what + " peak=" + std::to_string(peak));
 		if (!r.isStd) return Violation("WRONG_EXCEPTION", tags, "exception not derived from std::exception");
 		if (refused > 0 || peak > MemoryBound(bytes.size()))
